@@ -274,6 +274,9 @@ structure DState where
   opNo : Nat := 0
   inCase : Bool := false
   ticker : Bool := false      -- kind p1t: the 1 s write ticker is running
+  /-- how a data request is answered (Driver.C30 plugs in the model that also keeps the expiry index) -/
+  stepF : Cfg → Arith → Int → State → Req → Model.Out := Model.step
+  byKey : Bool := false       -- case attribute sorted=1: claim replies are listed by key
   longSeen : Bool := false    -- a long key (`x@N`) occurred in this case: replies are compressed again
 
 /-- the write ticker has run: every treasure waiting for the writer is written (its object gets a
@@ -317,14 +320,17 @@ def stepReq (d : DState) (f : List String) : DState × String :=
     let now := d.ck.now + opNo
     let ck : Clock := { d.ck with nows := now :: d.ck.nows }
     let verb := f.headD ""
-    let o := Model.step d.cfg d.ar now d.s req
+    let o := d.stepF d.cfg d.ar now d.s req
     let before := Model.abs d.s
     let sp := Spec.step d.ar now before req
     let after := Model.abs o.s
     let devAny : Bool := !d.s.dead && (decide (sp.2 ≠ o.r) || decide (sp.1 ≠ after))
     let dev : Bool := devAny && d.pol == .c06
     let tag := pickTag o.tags <|> d.lastTag
-    let lastTag := match pickTag o.tags with | some t => some t | none => d.lastTag
+    -- (the one mechanism known to move an expiry past the index stays the explanation for the rest of the case)
+    let lastTag := if d.pol == .c30 && (d.lastTag == some Tag.incFailTrace || o.tags.contains Tag.incFailTrace)
+                   then some Tag.incFailTrace
+                   else match pickTag o.tags with | some t => some t | none => d.lastTag
     -- a deviation from the data-request Spec that this domain does not report is still marked
     -- (`#D:`), so that the independent reference knows the line is accounted for elsewhere (C06)
     let flag := if dev then "\t#F:" ++ d.pid ++ "-" ++ (match tag with | some t => tagId t | none => "unattributed")
@@ -337,7 +343,7 @@ def stepLineRaw (d : DState) (line : String) : DState × String :=
   match f with
   | "case" :: _ :: rest =>
     let kind := (rest.filterMap fun a => match a.splitOn "=" with | ["kind", v] => some (kindOf v) | _ => none).headD .mem
-    ({ d with s := { kind := kind }, ck := {}, lastTag := none, opNo := 0, inCase := true, ticker := rest.contains "kind=p1t", longSeen := false }, line)
+    ({ d with s := { kind := kind }, ck := {}, lastTag := none, opNo := 0, inCase := true, ticker := rest.contains "kind=p1t", longSeen := false, byKey := rest.contains "sorted=1" }, line)
   | _ =>
     if !d.inCase then (d, "no-case")
     else match f with
